@@ -25,6 +25,11 @@ class HandOverSec:
     def correctly_signed_response(self, xml, **kw):
         return self.obj
 
+    def __getattr__(self, name):
+        if name.startswith("correctly_signed_"):
+            return lambda xml, **kw: self.obj
+        raise AttributeError(name)
+
     def check_signature(self, item, *a, **kw):
         self.checked.append(item)
         return item
